@@ -108,8 +108,13 @@ def run_pipeline(pid, tier, seed, replay, *, driver, model, trace_module, trace_
                     else:
                         violations.append((f"deviation {c} observed but not listed in known_findings.json", write_replay(pid, f"replay-{len(violations)}.json", {"property": pid, "clauses": mine, "spec": recover_spec(res['file'], run_no), "trace": lines})))
                 continue
+            try:
+                with open(res["file"]) as tf_:
+                    bad_event = json.loads(tf_.read().splitlines()[v["line"] - 1])
+            except Exception:
+                bad_event = None
             path = write_replay(pid, f"replay-{len(violations)}.json",
-                                {"property": pid, "clauses": mine, "spec": recover_spec(res["file"], run_no), "trace": lines})
+                                {"property": pid, "clauses": mine, "violating_event": bad_event, "spec": recover_spec(res["file"], run_no), "trace": lines})
             violations.append((f"clauses {mine} at event {v['line']} (run {run_no}) of {os.path.relpath(res['file'], ROOT)}", path))
     runs_total = rep_stats["runs"] + rnd_stats["runs"]
     sample = None
